@@ -118,12 +118,12 @@ fn(A + 'operator|=', TU, key='base_array::operator|=', serves=['C03'], returns_r
    throws='this.len + rhs.len > INT_MAX',   # the modelled allocation limit (std::length_error)
    ensures=[('length', 'this.len == old.this.len + old.rhs.len'),
             ('head', 'forall(lambda k: Implies(And(0 <= k, k < old.this.len), this[k] == old.this[k]))'),
-            ('tail', 'forall(lambda k: Implies(And(0 <= k, k < old.rhs.len), eqv(this[old.this.len + k], old.rhs[k])))')])
+            ('tail', 'forall(lambda k: Implies(And(old.this.len <= k, k < old.this.len + old.rhs.len), eqv(this[k], old.rhs[k - old.this.len])))')])
 fn(A + 'operator|', TU, key='base_array::operator|', serves=['C03'], pure=True,
    throws='this.len + rhs.len > INT_MAX',
    ensures=[('length', 'result.len == this.len + rhs.len'),
             ('head', 'forall(lambda k: Implies(And(0 <= k, k < this.len), eqv(result[k], this[k])))'),
-            ('tail', 'forall(lambda k: Implies(And(0 <= k, k < rhs.len), eqv(result[this.len + k], rhs[k])))')])
+            ('tail', 'forall(lambda k: Implies(And(this.len <= k, k < this.len + rhs.len), eqv(result[k], rhs[k - this.len])))')])
 fn(A + 'operator=', TU, sig='&(const base_array<', key='base_array::operator=(copy)', serves=['C03'],
    returns_ref='this', assigns=['this._vec'],
    scenarios=[{'name': 'distinct'}, {'name': 'self', 'alias': {'rhs': 'this'}}],
